@@ -24,15 +24,15 @@ import (
 
 // what the scripted peer does with the k-th CER it sees
 const (
-	rSilence = iota
-	rSuccess        // success CEA sharing an advertised application
-	rFailure        // failing Result-Code
-	rNoResultCode   // malformed: no Result-Code
-	rNoOriginHost   // malformed: no Origin-Host
-	rNoApplication  // success CEA without any application AVP
-	rUnknownApp     // success CEA whose only application is unknown to the dictionary
-	rDisconnect     // EOF
-	rVSUnknownApp   // success CEA whose only application is unknown and sits in a vendor-specific group after the Vendor-Id
+	rSilence       = iota
+	rSuccess       // success CEA sharing an advertised application
+	rFailure       // failing Result-Code
+	rNoResultCode  // malformed: no Result-Code
+	rNoOriginHost  // malformed: no Origin-Host
+	rNoApplication // success CEA without any application AVP
+	rUnknownApp    // success CEA whose only application is unknown to the dictionary
+	rDisconnect    // EOF
+	rVSUnknownApp  // success CEA whose only application is unknown and sits in a vendor-specific group after the Vendor-Id
 	nReplies
 )
 
@@ -56,9 +56,9 @@ type c12Script struct {
 	delta    time.Duration // reply delay after that CER (< interval)
 	extras   []int
 	late     time.Duration // the transport's Write of a CER returns this much after the peer saw the bytes
-	apps     int  // 0..3 configured application kinds
-	nAddrs   int  // configured addresses
-	ipv6     bool // local endpoint when none configured
+	apps     int           // 0..3 configured application kinds
+	nAddrs   int           // configured addresses
+	ipv6     bool          // local endpoint when none configured
 }
 
 func (s c12Script) String() string {
